@@ -535,7 +535,7 @@ func (r *Run) compose(g *kit.Gor, call *UpCall, req *http.Request, res, planIdx 
 		case "rel":
 			u := t.Path
 			if t.Query != "" {
-				u += "?" + t.Query
+				u += "?" + rawBytes(t.Query)
 			}
 			return u
 		case "abs", "cross":
